@@ -137,6 +137,9 @@ func vInsertionSort(n int, less func(i, j int) bool, swap func(i, j int)) {}
 
 func vNative() bool { return true }
 
+// natively the other goroutines get 30 ms
+func vSettle() { vtime.Sleep(30 * vtime.Millisecond) }
+
 var vStart = vtime.Now()
 
 // real seconds since the harness started (timers run in real time natively)
